@@ -5,7 +5,7 @@ import os
 
 from ..core import Ctx, HarnessError, Result
 from ..sched import catalogue as cat
-from ..sched.catalogue import A, E, N, spec_from
+from ..sched.catalogue import spec_from
 from ..sched.monitors import PoolInvariants, SubmitOnce
 from ..sched.mon_c19 import StopProfile
 from ..sched.mon_c43 import COUNTS, StopSemantics
@@ -14,7 +14,27 @@ from ..sched.run import explore_all, replay_violation, result_from
 LEVEL = 'model_checking'
 
 ASSUME = [
-    'bounded catalogue (see bounds); integer cycling; localhost jobs',
+    'bounded catalogue (see bounds); integer cycling; localhost jobs; jobs '
+    'succeed except in the workflows that list failing tasks',
+    'stop <point> / stop <task> (one per execution) and stop / stop --now '
+    '(--now --now in thorough) offered at every main-loop boundary, then '
+    'restart (a plain "cylc play"); jobs keep running while the scheduler '
+    'is down',
+    'stop points come from --stopcp or the stop command (the flow.cylc '
+    '"stop after cycle point", which is re-read at every start, is not '
+    'used); no manual triggering, so the "unless manually triggered" '
+    'exception is never needed',
+    'a task beyond the stop point whose job submission was already under '
+    'way (preparing) when the stop point was set may still be submitted',
+    '"shuts down once nothing at or before it remains": judged as no '
+    'automatic shutdown before the reference closure bounded by the stop '
+    'point is complete (safety) and no idle/stalled end state once it is '
+    '(liveness); waiting for active jobs beyond the stop point is allowed',
+    'a stop request processed after the scheduler has already decided to '
+    'shut down by itself (while it waits for its process pool) is not '
+    'judged; a stop task set after that task succeeded is not judged',
+    'commands still running when the scheduler blocks waiting for its '
+    'process pool at shutdown complete normally during that wait',
 ]
 
 
